@@ -16,8 +16,10 @@ def is_rng_ty(ty, bounds=None):
 
 
 def is_rng_local(b, l):
+    """the driver marks every local whose type (references / Option peeled) implements rand_core::RngCore;
+    the name heuristics only back that up for types the trait solver could not decide."""
     loc = b.locals[l]
-    return is_rng_ty(loc["ty"], loc.get("bounds"))
+    return bool(loc.get("rng")) or is_rng_ty(loc["ty"], loc.get("bounds"))
 
 
 def draw_sites(facts, scope, ctx_adt=None):
